@@ -123,6 +123,54 @@ pub fn check_identity(c: &Case, rep: &mut Report) -> bool {
             }
         }
     }
+    // (4b) identity inside the analysis results: the terminals on the edges that leave the start
+    // state of a lookahead automaton are exactly the terminals that can begin a lookahead string of
+    // that non-terminal (independent FIRST_1/FOLLOW_1 over terminal identities); every terminal of a
+    // reachable production is shifted somewhere in an LR table
+    {
+        let (bnf, _) = cfg_to_bnf_keys(&gc.cfg);
+        if !t.is_lr {
+            if let Some(ff) = crate::oracle::first_follow(&bnf, 1, 3000) {
+                for (ni, (_, trs, _)) in t.automata.iter().enumerate() {
+                    if trs.is_empty() || ni >= bnf.nts.len() {
+                        continue;
+                    }
+                    let mut want: BTreeSet<usize> = BTreeSet::new();
+                    for (pi, (lhs, _)) in bnf.prods.iter().enumerate() {
+                        if *lhs != ni {
+                            continue;
+                        }
+                        for w in crate::oracle::kconcat(&ff.first_prod[pi], &ff.follow[ni], 1) {
+                            if let Some(x) = w.first() {
+                                want.insert(if *x == crate::oracle::END { 0 } else { *x as usize });
+                            }
+                        }
+                    }
+                    let got: BTreeSet<usize> = trs.iter().filter(|tr| tr.0 == 0).map(|tr| tr.1 as usize).collect();
+                    if got != want {
+                        bad(rep, "automaton-start-terminals", format!("lookahead automaton of {} leaves its start state on token types {got:?}; the terminals that can begin its lookahead strings are {want:?}", bnf.nts[ni]));
+                    }
+                }
+            }
+        } else {
+            let reach = bnf.reachable();
+            let mut used: BTreeSet<usize> = BTreeSet::new();
+            for (lhs, rhs) in &bnf.prods {
+                if reach[*lhs] {
+                    for s in rhs {
+                        if let crate::gram::Sym::T(x) = s {
+                            used.insert(*x);
+                        }
+                    }
+                }
+            }
+            let shifted: BTreeSet<usize> = t.lr_states.iter().flat_map(|(acts, _)| acts.iter().filter(|(_, ai)| matches!(t.lr_actions.get(*ai), Some(crate::inst::LrAct::Shift(_)))).map(|(term, _)| *term as usize)).collect();
+            let missing: Vec<usize> = used.difference(&shifted).cloned().collect();
+            if !missing.is_empty() {
+                bad(rep, "lr-terminal-never-shifted", format!("terminals {missing:?} occur in reachable productions but no LR state shifts them (shifted: {shifted:?})"));
+            }
+        }
+    }
     // (5) skip lists and scanner transitions named in the source grammar
     let term_of_nt = |name: &str| -> Option<usize> {
         c.g.rules.iter().find(|r| r.name == name).and_then(|r| {
@@ -206,7 +254,7 @@ pub fn run(ctx: &Ctx) -> i32 {
             }
         }
     });
-    let rule = "case = accepted grammar from the quoting / mixed-terminal profiles (equal text under different quoting styles) or a scanner-level layout (lookahead terminals, several scanner states, skip lists, transitions), LL and LALR; terminal identity = (text, raw/regex class, lookahead) numbered by first occurrence in the transformed productions (computed by the harness); checked against: export-model scanner table (index, identity, expanded pattern), generated scanner modes (pattern per token type, index order, membership per state), every terminal occurrence in export-model and generated-source productions, range of automaton edges / LR actions, skip lists and scanner transitions in source and model; non-trivial = grammar with equal-text terminals, several states or lookahead terminals; distinct by grammar text";
+    let rule = "case = accepted grammar from the quoting / mixed-terminal profiles (equal text under different quoting styles) or a scanner-level layout (lookahead terminals, several scanner states, skip lists, transitions), LL and LALR; terminal identity = (text, raw/regex class, lookahead) numbered by first occurrence in the transformed productions (computed by the harness); checked against: export-model scanner table (index, identity, expanded pattern), generated scanner modes (pattern per token type, index order, membership per state), every terminal occurrence in export-model and generated-source productions, range of automaton edges / LR actions, first-level automaton edges = terminals that can begin a lookahead string (own FIRST_1/FOLLOW_1 over terminal identities), every terminal of a reachable production shifted by some LR state, skip lists and scanner transitions in source and model; non-trivial = grammar with equal-text terminals, several states or lookahead terminals; distinct by grammar text";
     let min = if ctx.quick() { 500 } else { 8000 };
     finish(ctx, rep, rule, (min as f64 * ctx.scale) as u64, json!({}), t0.elapsed().as_secs_f64())
 }
